@@ -441,7 +441,7 @@ package rpc
 //@   loop 1: invariant drainInv(c.pending) && c.pending == old(c.pending) && c.seq == old(c.seq) && forallkey(s, c.pending, s < c.seq)
 
 //@ func (*Client).wait
-//@   property C18
+//@   property C18 C03
 //@   requires c != nil && w != nil
 
 //@ func (*Client).Close
@@ -483,7 +483,10 @@ package rpc
 //@ func (*Client).check
 //@   property C16 C17 C18
 //@   ghostat store Client.pos#1: gg_posw() = gg_posw() + 1
-//@   ensures [C17] gg_posw() == old(gg_posw()) || (gg_deqn() == old(gg_deqn()) + 1 && !ggb_deq())
+//@   ensures [C17 C18] gg_posw() == old(gg_posw()) || (gg_deqn() == old(gg_deqn()) + 1 && !ggb_deq())
+//@   ghostat store Client.list#1: gg_listw() = gg_listw() + 1
+//@   ghostat store Client.list#2: gg_listw() = gg_listw() + 1
+//@   ensures [C18 C17] implies(gg_deqn() == old(gg_deqn()) + 1 && !ggb_deq(), gg_listw() == old(gg_listw()) + 1)
 //@   requires c != nil && t != nil
 //@   requires c.Alpha >= 0.0 && c.Alpha <= 1.0
 //@   loop 1: invariant forall(i, 0, len(l), liveT(c, l[i])) && fresh(l) && forall(i, 0, len(c.list), liveT(c, c.list[i])) && forall(i, 0, len(c.minHeap), liveT(c, c.minHeap[i]))
@@ -501,6 +504,8 @@ package rpc
 //@   ghostset gg_diraddr() = ite(len(address) > 0, sid(address), sid(t.address))
 //@   ensures [C16] implies(err == nil && len(address) == 0, t != nil && gb_routed(t))
 //@   ensures [C16] implies(err == nil && len(address) > 0, t == nil)
+//@   ghostat resetWaiterDone#1: gg_werr() = ref(w.err)
+//@   atcall sync.(*Pool).Put#2: [C18] ref(err) == gg_werr()
 
 // RoundTripper interface methods as seen by the Client: ghost record of the address each call was sent to.
 //@ iface RoundTripper.Call
@@ -825,8 +830,9 @@ package rpc
 //@   atcall stream.unmarshal#1: [C11] w.noCopy || len(arg0) == 0 || arr(arg0) != arr(e.Value)
 //@   atcall stream.unmarshal#2: [C11] w.noCopy || len(arg0) == 0 || arr(arg0) != arr(e.Value)
 //@ func (*stream).stop
-//@   property C10
+//@   property C03 C10 C20
 //@   requires w != nil
+//@   atcall sync.(*Cond).Broadcast#1: [C03 C10 C20] true
 //@   modifies w.closed
 //@   ensures [C10] w.closed == 1
 //@ func (*stream).trigger
@@ -1239,3 +1245,9 @@ package rpc
 //@   ensures result == nil
 //@   loop 1: invariant forall(i, 0, len(server.listeners), !isnil(server.listeners[i]))
 //@   atcall socket.Listener.Close#1: [C20] holds(Server_mut)
+
+//@ func (*Server).listen$2
+//@   property C05
+//@   requires srvOK(server) && !isnil(messages) && New != nil && codecs != nil
+//@   ensures [C05] implies(server.pipelining, !isnil(result0.(*ServerContext).sched) && fresh(result0.(*ServerContext).sched))
+//@   ensures [C05] fresh(result0.(*ServerContext).pipeline) && fresh(result0.(*ServerContext).streams)
